@@ -8,6 +8,7 @@ fills and (b) equal numpy's casts / promotion computed on plain arrays.
 """
 from __future__ import annotations
 
+import json
 from typing import Any, Dict, List, Optional, Tuple
 
 import numpy
@@ -96,11 +97,16 @@ def generate(rs: int, tier: str, index: int) -> dict:
     cast_cell = index < len(DTYPES) ** 2 * len(CASTS)  # the complete (source dtype, target dtype, cast route) matrix comes first
     if cast_cell:
         kind = "ctor"
+    if kind == "ctor" and not cast_cell and ch.sub("swapped").chance(0.15):
+        # a requested dtype in the other byte order: same name ("float64"), not the same dtype
+        d2 = ch.sub("swapped").choice([">f8", ">i8", ">u4", ">c16", ">f4", ">i2", ">u8"])
     step: Dict[str, Any] = {"id": 0, "k": kind, "d1": d1, "d2": d2}
     if kind == "ctor":
         how = ch.choice(["polynomial_dtype", "aspolynomial_dtype", "from_attributes_dtype", "from_attributes_mixed", "dict", "variable", "symbols", "astype", "from_data", "aspolynomial_poly_dtype", "polynomial_list"])
         if cast_cell:
             how = CASTS[(index // len(DTYPES) ** 2) % len(CASTS)]
+        elif d2.startswith(">"):
+            how = ch.choice(CASTS)
         step["how"] = how
         shape = ch.choice([(), (3,), (2, 2), (2, 3)])
         size = int(numpy.prod(shape, dtype=int))
@@ -125,6 +131,15 @@ def generate(rs: int, tier: str, index: int) -> dict:
         step["scalar"] = ch.choice([0, 1, 2])
         if ch.sub("alias").chance(0.1):
             step["alias"] = True
+        cn = ch.sub("neighbours")
+        if numpy.dtype(d1).kind == "f" and cn.chance(0.25):
+            # the second operand shares the terms of the first and holds the neighbouring floating-point numbers: the
+            # differences are tiny, exactly representable, and not zero
+            step["op"] = cn.choice(["sub", "sub", "add"])
+            step["d2"] = d2 = d1
+            nb = json.loads(json.dumps(a))
+            nb["coefficients"] = [[float(numpy.nextafter(numpy.dtype(d1).type(v), numpy.dtype(d1).type(numpy.inf if cn.chance(0.5) else -numpy.inf))) if cn.chance(0.7) else v for v in col] for col in a["coefficients"]]
+            step["b"] = nb
     elif kind == "shape":
         step["fn"] = ch.choice(["getitem", "reshape", "transpose", "concatenate", "where", "diff", "ediff1d", "getitem_mask", "stack", "repeat", "tile", "expand_dims", "sum", "cumsum"])
         shape = ch.choice([(2,), (3,), (2, 2), (2, 3)])
@@ -584,7 +599,9 @@ class Runner:
             return False
         for key in a:
             x, y = numpy.asarray(a[key]), numpy.asarray(b[key])
-            if x.shape != y.shape or (check_dtype and x.dtype != y.dtype):
+            # (byte order is a property of the storage, checked on the polynomial's dtype; element access may hand out
+            #  native-order scalars)
+            if x.shape != y.shape or (check_dtype and x.dtype.newbyteorder("=") != y.dtype.newbyteorder("=")):
                 return False
             if not numpy.array_equal(x, y, equal_nan=x.dtype.kind in "fc" and y.dtype.kind in "fc"):
                 return False
